@@ -47,7 +47,10 @@ func diffRange(known string, diffs []diffmatchpatch.Diff) (start, end int) {
 
 func docDiff(id string, doc1 *indexedDocument, doc1Start, doc1End int, doc2 *indexedDocument, doc2Start, doc2End int) []diffmatchpatch.Diff {
 	chars1 := doc1.runes[doc1Start:doc1End]
-	chars2 := doc2.runes[doc2Start:doc2End]
+	// doc2 is a corpus document shared by all concurrent Match calls. go-diff
+	// appends to sub-slices of its arguments (diffHalfMatchI), which writes into
+	// their backing array, so it must not be handed the shared slice itself.
+	chars2 := append([]rune(nil), doc2.runes[doc2Start:doc2End]...)
 
 	dmp := diffmatchpatch.New()
 	diffs := dmp.DiffMainRunes(chars1, chars2, false)
